@@ -103,6 +103,31 @@ def _keys(repo, rep):
                   "same function of the slot name (mangled)",
                   construct="slot-key-shape",
                   detail="writer %s / reader %s" % (src(w[0]), src(r[0])))
+    # ... and an injective one: two different slot names must not share a
+    # key.  mangle() replaces every character outside [A-Za-z0-9_] by '_',
+    # a character it keeps -- 'x-y' and 'x_y' (and 'x.y') become one key
+    mg = repo.func("chameleon.compiler.mangle")
+    subs = [n for n in ast.walk(mg.node) if isinstance(n, ast.Call)
+            and isinstance(n.func, ast.Attribute)
+            and n.func.attr in ("sub", "replace") and len(n.args) >= 2]
+    injective = bool(subs)
+    idetail = []
+    for c_ in subs:
+        repl = c_.args[0] if c_.func.attr == "sub" else c_.args[1]
+        if isinstance(repl, ast.Constant) and isinstance(repl.value, str):
+            if repl.value != "":
+                # a constant replacement maps every replaced character (and
+                # the replacement itself, which is kept) to the same text
+                injective = False
+                idetail.append(src(c_)[:60])
+            elif c_.func.attr == "replace":
+                injective = False      # a character is dropped
+                idetail.append(src(c_)[:60])
+    rep.check(injective, "R09.1", mg.qualname, "the key function is "
+              "injective on slot names (each replaced character gets its "
+              "own escape and the escape character is escaped too)",
+              construct="slot-key-injective", where=L.where(mg),
+              detail="; ".join(idetail))
     # the caller stores under that key; the prologue pops that key
     res = L.emission(repo, use.qualname)
     lin_ = L.Lin(res.emission)
@@ -342,6 +367,22 @@ def _slots(repo, rep):
               construct="slot-store-cleanup", where=L.where(use),
               detail="%d store fragment(s), %d clean-up fragment(s) after "
                      "the call" % (len(stores), len(cleanup)))
+    # 'fill-slots that name no slot [are] discarded': the copy a plain
+    # use-macro hands over still holds the filler stacks its caller
+    # inherited (from ITS caller); unless they are hidden, a filler that
+    # names no slot of the used macro falls through to a macro used inside it
+    hides = False
+    for i_, (it_, c_, p_) in enumerate(lin.rows):
+        if isinstance(it_, A.Frag) and it_.tree is not None and \
+                L.polarity(c_, "node.extend") is False:
+            for n_ in ast.walk(it_.tree):
+                if isinstance(n_, ast.Constant) and n_.value == "__slot_":
+                    hides = True
+    rep.check(hides, "R09.2", use.qualname, "a plain (non-extend) use-macro "
+              "hides the filler stacks inherited through the caller's scope "
+              "before its own fillers are stored: a filler for a slot the "
+              "used macro does not define cannot reach a macro used inside "
+              "it", construct="inherited-fillers-hidden", where=L.where(use))
     # fillers are defined before the macro is called
     call = callx
     fdi = lin.index(L.is_py("FunctionDef"))
